@@ -833,7 +833,9 @@ pub fn scenarios(prop: &str, tier: &str) -> Vec<Arc<dyn Scenario>> {
                 }
                 push(format!("{prop}-t16-aggressive-33"), mk(16, 1, 0.0, 1.0), &a, bs(3, 3, 1, 1, 1), vec![vec![]]);
             }
-            if !quick {
+            if !quick && prop == "C09" {
+                // (C09 only: the C08 oracle replays the history on a twin tree and compares every key at
+                // every snapshot pair, minutes per state with 72 MB of keys)
                 // one ingestion large enough (> 64 MiB of index data, reached with 60 000-byte keys) to
                 // make the ingestion's table writer rotate: the blob links of the batch are spread over
                 // two tables, which are then dropped separately / merged / recovered
